@@ -90,7 +90,10 @@ def judge_case(spec):
     base = {k: v for k, v in spec.items() if k not in ("noise_b", "cross_process", "hashseed")}
     ka, da, na = outcome(base, spec["pre_noise"])
     if spec.get("cross_process"):
-        kb, db, nb = subprocess_digest(base, spec["noise_b"], spec["hashseed"])
+        try:
+            kb, db, nb = subprocess_digest(base, spec["noise_b"], spec["hashseed"])
+        except subprocess.TimeoutExpired:
+            return None                      # a starved machine is inconclusive, never a violation
     else:
         kb, db, nb = outcome(base, spec["noise_b"])
     if "timeout" in (ka, kb):
